@@ -909,6 +909,36 @@ func c02Gen(r *Run) {
 			r.AddSample(map[string]interface{}{"q": q, "obs": obs})
 		}
 	}
+	// (6) a graph whose vertices were stored before under OTHER labels (relabelled: the label index of the
+	// store still holds the old entries behind the records): a leading label filter that names the old and
+	// the new label must return each vertex once, whichever way the plan finds it (seed C02-l)
+	{
+		vtx := func(id, label string, x float64) interface{} {
+			return map[string]interface{}{"gid": id, "label": label, "data": map[string]interface{}{"x": x, "name": id}}
+		}
+		g := map[string]interface{}{
+			"vertices": []interface{}{vtx("v1", "B", 1), vtx("v2", "A", 2), vtx("v3", "B", 3), vtx("v4", "C", 4)},
+			"edges": []interface{}{map[string]interface{}{"gid": "e1", "label": "k", "from": "v1", "to": "v2", "data": map[string]interface{}{}},
+				map[string]interface{}{"gid": "e2", "label": "k", "from": "v3", "to": "v1", "data": map[string]interface{}{}}},
+			"history": []interface{}{vtx("v1", "A", 0), vtx("v3", "C", 0), vtx("v3", "A", 0), vtx("v4", "C", 9)},
+		}
+		reset(g)
+		for _, q := range [][]c01Stmt{
+			{{"v": sl()}, {"hasLabel": sl("A", "B")}},
+			{{"v": sl()}, {"hasLabel": sl("B", "A")}, {"count": ""}},
+			{{"v": sl()}, {"hasLabel": sl("A")}},
+			{{"v": sl()}, {"hasLabel": sl("C", "A", "B")}},
+			{{"v": sl()}, c02Has(c02C("_label", "WITHIN", []interface{}{"A", "B"}))},
+			{{"v": sl()}, c02Has(c02C("_label", "WITHIN", []interface{}{"C", "B", "A"})), {"count": ""}},
+			{{"v": sl()}, {"hasLabel": sl("A", "B")}, {"out": sl()}},
+			{{"v": sl()}, {"hasLabel": sl("A", "B", "C")}, {"hasLabel": sl("B", "C")}},
+			{{"v": sl()}, {"hasLabel": sl("C")}, {"count": ""}},
+			{{"v": sl()}, {"hasLabel": sl("A", "C")}, {"in": sl()}, {"count": ""}},
+		} {
+			query(q)
+			r.Count("relabelled")
+		}
+	}
 	r.Rule = "distinct programs (statement lists) that produced at least one row"
 }
 
